@@ -81,7 +81,10 @@ impl TcpBed {
                 return Err(Fail::new("emit:frame-exceeds-mtu", format!("emitted {} bytes with MTU {}", f.len(), self.mtu)));
             }
             let ip = decode_ip(&f, true).map_err(|e| Fail::new("emit:undecodable-ip", format!("{} in {:02x?}", e, &f[..f.len().min(64)])))?;
-            if ip.proto() == PROTO_TCP && !ip.is_fragment() {
+            if ip.proto() == PROTO_TCP && ip.is_fragment() {
+                return Err(Fail::new("emit:tcp-segment-fragmented", format!("TCP segment of {} bytes was IP-fragmented (MTU {})", f.len(), self.mtu)));
+            }
+            if ip.proto() == PROTO_TCP {
                 let d = decode_tcp(ip.payload(), &ip.src(), &ip.dst()).map_err(|e| Fail::new("emit:undecodable-tcp", format!("{} in {:02x?}", e, &f[..f.len().min(80)])))?;
                 if !d.opts_wellformed {
                     return Err(Fail::new("emit:tcp-options-malformed", format!("{:02x?}", &ip.payload()[20..20 + d.opt_len])));
